@@ -1577,6 +1577,13 @@ pub fn object_group_by(
         }
     };
 
+    // The callback may shrink the source: the copied elements stay rooted here
+    for item in &elements {
+        if let JsValue::Object(item_obj) = item {
+            guard.guard(item_obj.clone());
+        }
+    }
+
     // Create result object with null prototype
     let result = interp.create_object(&guard);
     {
